@@ -82,6 +82,13 @@ class HList(object):
     def __init__(self, items):
         self.items = list(items)
 
+    def __getitem__(self, i):
+        return self.items[i]
+
+    @property
+    def length(self):
+        return len(self.items)
+
 
 class HSetList(object):
     """list abstracted to the set of its elements (only `in` / `append` are homomorphic and allowed)"""
@@ -94,32 +101,45 @@ class HSetList(object):
 
 
 class HSymList(object):
-    """list of symbolic length; elements are records of int/bool components kept in arrays"""
-    def __init__(self, name, kinds, pack, unpack, n=None, arrays=None):
+    """list of symbolic length; elements are records of int/bool components, one z3 Seq(Int) per
+    component (bools stored as 0/1)"""
+    def __init__(self, name, kinds, pack, unpack, seqs=None):
         self.name = name
         self.kinds = kinds
         self.pack = pack          # list of SInt/SBool -> element value
         self.unpack = unpack      # element value -> list of SInt/SBool
-        self.n = z3.IntVal(0) if n is None else n
-        if arrays is None:
-            arrays = [z3.K(z3.IntSort(), z3.IntVal(0)) if k == "int" else z3.K(z3.IntSort(), z3.BoolVal(False)) for k in kinds]
-        self.arrays = arrays
+        if seqs is None:
+            seqs = [z3.Empty(z3.SeqSort(z3.IntSort())) for _ in kinds]
+        self.seqs = seqs
+
+    @property
+    def n(self):
+        return z3.Length(self.seqs[0])
+
+    def _comp(self, s, k, i):
+        e = s[i]
+        return SInt(e) if k == "int" else SBool(e != 0)
 
     def get(self, i):
-        comps = [SInt(z3.Select(a, i)) if k == "int" else SBool(z3.Select(a, i)) for a, k in zip(self.arrays, self.kinds)]
-        return self.pack(comps)
+        return self.pack([self._comp(s, k, i) for s, k in zip(self.seqs, self.kinds)])
 
     def append(self, v):
         comps = self.unpack(v)
-        self.arrays = [z3.Store(a, self.n, _ie(c) if k == "int" else _be(c)) for a, c, k in zip(self.arrays, comps, self.kinds)]
-        self.n = self.n + 1
+        self.seqs = [z3.Concat(s, z3.Unit(_ie(c) if k == "int" else z3.If(_be(c), z3.IntVal(1), z3.IntVal(0))))
+                     for s, c, k in zip(self.seqs, comps, self.kinds)]
 
     def as_seq(self):
-        arrays = list(self.arrays)
+        seqs = list(self.seqs)
         kinds = self.kinds
         pack = self.pack
-        return SSeq(self.n, lambda i: pack([SInt(z3.Select(a, i)) if k == "int" else SBool(z3.Select(a, i)) for a, k in zip(arrays, kinds)]),
-                    kind="list", base=tuple([self.name] + arrays + [self.n]))
+        comp = self._comp
+        return SSeq(z3.Length(seqs[0]), lambda i: pack([comp(s, k, i) for s, k in zip(seqs, kinds)]), kind="list")
+
+    def col(self, j):
+        return sym.ZSeq(self.seqs[j])
+
+    def __getitem__(self, i):
+        return self.get(_ie(i))
 
     @property
     def length(self):
@@ -208,7 +228,7 @@ class Frame(object):
 
 
 class Obligation(object):
-    __slots__ = ("name", "kind", "hyps", "goal", "lineno", "status", "backend", "time_s", "model", "detail", "trace", "derived")
+    __slots__ = ("name", "kind", "hyps", "goal", "lineno", "status", "backend", "time_s", "model", "detail", "trace", "derived", "_extra")
 
     def __init__(self, name, kind, hyps, goal, lineno, detail="", trace=()):
         self.name = name
@@ -223,6 +243,7 @@ class Obligation(object):
         self.detail = detail
         self.trace = tuple(trace)
         self.derived = set()
+        self._extra = None
 
 
 class Run(object):
